@@ -126,7 +126,7 @@ def oracle(case):
 def correspond(ctx):
     rng = ctx['rng']
     cases = [gen_case(rng) for _ in range(120 if ctx['thorough'] else 36)]
-    pcases = [gen_potable(rng) for _ in range(44 if ctx['thorough'] else 12)]
+    pcases = potable_corpus(ctx['thorough']) + [gen_potable(rng) for _ in range(44 if ctx['thorough'] else 6)]
     dis = []
     nfaults = 0
     for c in cases:
@@ -148,7 +148,13 @@ def correspond(ctx):
                     'potable subprocess on every target with a formula that leaves its domain part-way (pair/embedding/density/dipole/quadrupole): non-zero exit and empty-or-absent output file; all cases are non-trivial',
             'samples': [{k: v for k, v in c.items()} for c in cases[:1]] + pcases[:2], 'distribution': dist, 'disagreements': dis[:20], 'oracle_cases': []}
 
+def potable_corpus(full):
+    """fixed potable cases: every target with the failure in every kind of function (full), or in its second pair potential (the first is written whole)"""
+    wheres = {'pair': ['pair'], 'eam': ['pair', 'embed', 'density'], 'fs': ['pair', 'embed', 'density'], 'adp': ['pair', 'embed', 'density', 'dipole', 'quadrupole']}
+    return [{'potable_fault': True, 'target': t, 'where': w, 'frac': 0.5} for t in sorted(TARGET_MODELS) for w in (wheres[TARGET_MODELS[t]] if full else ['pair'])]
+
 def search_cases(rng, n):
+    for c in potable_corpus(True): yield c
     for k in range(min(n, 120)):
         c = gen_case(rng); c['_maxpos'] = 12
         yield c
